@@ -47,6 +47,10 @@ pub struct Stats {
     pub death_kinds: Vec<&'static str>,
     pub stale_acks: u32,
     pub owed_at_full_arena: u32,
+    /// a new identifier was smaller than the previous new one of the same session while other
+    /// operations were still in flight (16-bit counter wrapped)
+    pub wraps_with_inflight: u32,
+    pub wraps: u32,
 }
 
 #[derive(Clone, Copy, Debug, PartialEq, Eq)]
@@ -130,6 +134,9 @@ pub struct Model<'a> {
     last_acked_seq: Option<usize>,
     ops_started: usize,
     epoch_first_op: usize,
+    /// identifier allocations of the current session as far as the harness can tell
+    allocs: u64,
+    wraps_seen: u64,
 }
 
 fn multiset_eq(a: &[Prop], b: &[Prop]) -> bool {
@@ -182,6 +189,8 @@ impl<'a> Model<'a> {
             last_acked_seq: None,
             ops_started: 0,
             epoch_first_op: 0,
+            allocs: 0,
+            wraps_seen: 0,
         };
         m.walk();
         (m.viol, m.stats)
@@ -237,6 +246,7 @@ impl<'a> Model<'a> {
                 }
                 TL::Sample(ei) => self.on_sample(ei),
                 TL::Advance(_) => {}
+                TL::Burn(n) => self.allocs += n as u64,
             }
         }
         self.stats.out_packets = self.v.out.len() as u32;
@@ -290,6 +300,8 @@ impl<'a> Model<'a> {
                     self.stats.fresh_with_inflight += 1;
                 }
                 self.epoch += 1;
+                self.allocs = 0;
+                self.wraps_seen = 0;
                 self.epoch_first_op = self.ops_started;
                 self.ever_connected = true;
                 self.pending_qos2.clear();
@@ -877,6 +889,14 @@ impl<'a> Model<'a> {
                     self.stats.qos2_flights += 1;
                     if self.trs[tr].rm <= 4 {
                         self.stats.small_rm_qos2 = true;
+                    }
+                }
+                self.allocs += 1;
+                if self.allocs / 65535 > self.wraps_seen {
+                    self.wraps_seen = self.allocs / 65535;
+                    self.stats.wraps += 1;
+                    if self.unresolved().count() > 0 {
+                        self.stats.wraps_with_inflight += 1;
                     }
                 }
                 let seq = self.flights.len();
